@@ -173,6 +173,9 @@ func cheat(a *hx.Args, res *hx.Result) {
 	lines := hx.ReadNDJSON(a.In)
 	rng := hx.Rng(a.Seed, "disc-cheat")
 	kps := hx.Keys1024()
+	if a.Tier == "thorough" {
+		kps = append(kps, hx.Key2048())
+	}
 	dedup := map[string]bool{}
 	var cases []aCase
 	for _, l := range lines {
@@ -186,7 +189,10 @@ func cheat(a *hx.Args, res *hx.Result) {
 		}
 		cases = append(cases, c)
 	}
-	conc := []*concretiser{newConcretiser(kps[0], rng, 8), newConcretiser(kps[1], rng, 8)}
+	var conc []*concretiser
+	for _, kp := range kps {
+		conc = append(conc, newConcretiser(kp, rng, 8))
+	}
 	// credentials are cached per (key, m)
 	var mu sync.Mutex
 	creds := map[string]*credential{}
@@ -213,7 +219,7 @@ func cheat(a *hx.Args, res *hx.Result) {
 	}
 	hx.Parallel(len(cases), func(i int) {
 		c := cases[i]
-		k := i % 2
+		k := i % len(conc)
 		runCheat(conc[k], getCred(k, c), c, mrand.New(mrand.NewSource(seeds[i])), res)
 	})
 	res.Notes["credentials"] = len(creds)
@@ -378,7 +384,11 @@ func runCheat(cz *concretiser, cr *credential, c aCase, rng *mrand.Rand, res *hx
 
 func sizes(a *hx.Args, res *hx.Result) {
 	rng := hx.Rng(a.Seed, "disc-sizes")
-	for _, kp := range hx.Keys1024() {
+	all := hx.Keys1024()
+	if a.Tier == "thorough" {
+		all = append(all, hx.Key2048())
+	}
+	for _, kp := range all {
 		pk := kp.PK
 		P := pk.Params
 		maxA := new(gobig.Int).Sub(pow2(P.LmCommit+1), one)
@@ -439,7 +449,13 @@ func honest(a *hx.Args, res *hx.Result) {
 	lines := hx.ReadNDJSON(a.In)
 	rng := hx.Rng(a.Seed, "disc-honest")
 	kps := hx.Keys1024()
-	conc := []*concretiser{newConcretiser(kps[0], rng, 8), newConcretiser(kps[1], rng, 8)}
+	if a.Tier == "thorough" {
+		kps = append(kps, hx.Key2048())
+	}
+	var conc []*concretiser
+	for _, kp := range kps {
+		conc = append(conc, newConcretiser(kp, rng, 8))
+	}
 	type hcase struct {
 		M    map[string]int `json:"m"`
 		Disc map[string]int `json:"disc"`
@@ -469,7 +485,7 @@ func honest(a *hx.Args, res *hx.Result) {
 	hx.Parallel(len(cases), func(ci int) {
 		c := cases[ci]
 		r := mrand.New(mrand.NewSource(seeds[ci]))
-		k := ci % 2
+		k := ci % len(conc)
 		cz := conc[k]
 		pk := cz.kp.PK
 		var ms []*big.Int
